@@ -132,11 +132,13 @@ P = histprop.HistProp(
           "the crate's back, by every call on and around a Unix socket and a character device (through a symlink) found in a served directory, and by walks whose entries are removed while the walk is under way; every call runs under catch_unwind in a debug and in a release build; a case counts as "
           "non-trivial when it has at least 3 successful and 1 failing call"),
     assumptions=["copy_dir/move_dir into the source's own subtree is excluded (documented non-termination)",
-                 "writes at positions beyond 100 kB are excluded (allocation failure aborts, it does not panic)",
+                 "writes at positions beyond 100 kB are outside the correspondence with the model (its cursor has unbounded memory); writes after seeks to 2^48 .. u64::MAX are checked on the implementation alone: an error, no panic, no abort",
                  "RwLock poisoning is excluded (needs an earlier panic)"])
 generate, corpus, known = P.generate, P.corpus, P.known
 ASSUMPTIONS, BUILDS = P.ASSUMPTIONS, P.BUILDS
-RULE = P.RULE + ("; EmbeddedFS under the adapters (lower layer of two- and three-layer overlays, below an altroot): appends that copy "
+RULE = P.RULE + ("; writes through MemoryFS write handles (create and append, directly and through altroot / overlay) after seeks to u64::MAX, 2^63, "
+                 "i64::MAX, 2^62, 2^48: an error and a handle that stays usable, no panic, no abort (one process per case, debug and release)"
+                 "; EmbeddedFS under the adapters (lower layer of two- and three-layer overlays, below an altroot): appends that copy "
                  "embedded files up, setters, removals, walks and copies; EmbeddedFS itself: every observer and mutator on every path of the C18 universe (near misses and backslash "
                  "aliases of embedded paths included) and read-handle scripts, debug and release; the ASYNC API: the same cases through the async port on a current-thread tokio runtime and under "
                  "futures::executor::block_on, i.e. with NO tokio runtime entered (code that reaches for one must degrade to "
@@ -236,11 +238,72 @@ def embedded_panics(tier):
     return out, n
 
 
+def huge_write_panics():
+    """writes through a MemoryFS write handle after a seek FAR past the end (u64::MAX, 2^63, i64::MAX, 2^62, 2^48: more than
+    a buffer can hold, or than can be allocated): the handle must answer with an error, not panic ("capacity overflow")
+    and not abort the process; it stays usable afterwards.  Implementation only: the model's cursor has unbounded memory
+    (DESIGN 18), so these positions are outside the correspondence"""
+    import os
+    import subprocess
+    rng = __import__("random").Random(89)
+    cases = []
+    for kind in ("mem", "alt_mem", "ovl_mm", "ovl_sub"):
+        for j, off in enumerate((18446744073709551615, 9223372036854775808, 9223372036854775807, 4611686018427387904, 281474976710656)):
+            for opener in ("createfile", "appendfile"):
+                c = vfx.Case("c13_huge_%s_%d_%s" % (kind, j, opener))
+                g = hist.build_config(c, kind, rng)
+                c.cfg = g
+                t = g.target
+                hist.write_file(c, t, "f", b"abc")
+                h = c.op(opener, vfx.ps(t, "f"))
+                c.op("hwrite", h, vfx.hexs(b"xy"))
+                c.op("hseek", h, "s", off)
+                c.op("hwrite", h, vfx.hexs(b"Z"))
+                c.op("hwrite", h, "-")
+                c.op("hflush", h)
+                c.op("hseek", h, "s", 1)
+                c.op("hwrite", h, vfx.hexs(b"Q"))
+                c.op("hdrop", h)
+                c.op("readtostring", vfx.ps(t, "f"))
+                cases.append(c)
+    out, n = [], 0
+    for rel in (False, True):
+        exe = os.path.join(vfx.HARNESS, "target", "release" if rel else "debug", "vfsx")
+        for c in cases:       # one process per case: an abort (failed allocation) must not hide the other cases
+            f = os.path.join(vfx.WORK, "c13huge.cases")
+            os.makedirs(vfx.WORK, exist_ok=True)
+            open(f, "w").write(c.text())
+            r = subprocess.run([exe, f], stdout=subprocess.PIPE, stderr=subprocess.PIPE, text=True, timeout=300)
+            lines = [l.split(" ", 3) for l in r.stdout.splitlines() if l.startswith("r ")]
+            n += len(lines)
+            bad = None
+            if r.returncode != 0 or len(lines) < c.nops:
+                bad = (len(lines), "the process died (rc=%d): %s" % (r.returncode, r.stderr[-200:]))
+            else:
+                for parts in lines:
+                    if parts[3].startswith("panic"):
+                        bad = (int(parts[2]), "panic")
+                        break
+            if bad:
+                step = min(bad[0], c.nops - 1)
+                out.append({"case": c.name, "case_text": c.text(), "step": step, "op": c.ops[step] + ("  [release]" if rel else "  [debug]"),
+                            "model": None, "impl": bad[1], "violates": True,
+                            "note": "a write far past the end of a MemoryFS write handle: %s at `%s`" % (bad[1][:120], c.ops[step][:60])})
+    try:
+        os.remove(os.path.join(vfx.WORK, "c13huge.cases"))
+    except OSError:
+        pass
+    return out, n
+
+
 def run_and_compare(cases, tier):
     res = P.run_and_compare(cases, tier)
     edis, en = embedded_panics(tier)
     res["disagreements"] += edis
     res["stats"].setdefault("distribution", {})["embedded_calls_checked_for_panics"] = en
+    hdis, hn = huge_write_panics()
+    res["disagreements"] += hdis
+    res["stats"].setdefault("distribution", {})["calls_around_writes_far_past_the_end"] = hn
     dis, n = async_panics([c for c in cases if getattr(c, "cfg", None) is not None])
     res["disagreements"] += dis
     res["stats"]["evaluations"] = res["stats"].get("evaluations", 0) + n
